@@ -237,7 +237,7 @@ impl Monitor for C14 {
         "C14"
     }
     fn engine(&self) -> &'static str {
-        "cwv-direct"
+        "cwv-direct (cw4-group) + cwv-app (cw4-stake with sink hooks, every 4th history)"
     }
     fn histories(&self, tier: Tier) -> u64 {
         tier.pick(400, 48_000)
@@ -256,6 +256,9 @@ impl Monitor for C14 {
             "calls_after_admin_cleared",
             "former_admin_calls",
             "non_admin_calls",
+            "stake_admin_calls_ok",
+            "stake_non_admin_calls_rejected",
+            "stake_hook_deliveries_checked",
         ]
     }
     fn rule(&self) -> &'static str {
@@ -269,6 +272,11 @@ impl Monitor for C14 {
         ]
     }
     fn run_history(&self, h: &mut Hist) {
+        if h.idx % 4 == 3 {
+            // cw4-stake pass (AppDriver, hooks are sink contracts: committed deliveries are checked)
+            crate::monitor::stake::Stake { prop: "C14" }.run(h);
+            return;
+        }
         let mut g = Group::new(&mut h.rng);
         let members = gen_members(&mut h.rng, false);
         let pl = crate::cw20w::pool();
